@@ -263,6 +263,18 @@ def inline_call(self, st, key: str, recv, args, kwargs, contract):
                 st.env[n] = res[0][2]
             else:
                 st.env[n] = v
+        if contract is None:
+            # an uncontracted helper: a parameter annotated with a plain non-Optional type receives the inner value of an Optional
+            # argument (the caller established that it is not None; otherwise this is the obligation that says so)
+            for prm in fi.node.args.args:
+                pv = st.env.get(prm.arg)
+                if prm.annotation is not None and isinstance(pv, Val) and isinstance(pv.ty, Opt):
+                    try:
+                        aty = self._ann_type(prm.annotation)
+                    except Exception:
+                        aty = None
+                    if aty is not None and not isinstance(aty, Opt):
+                        st.env[prm.arg] = self.need(st, pv, aty)
         if contract is not None:
             for pn, pty in contract.params.items():
                 if pn in st.env and isinstance(st.env[pn], (NoneVal, ListVal)) or (pn in st.env and isinstance(st.env[pn], Val) and st.env[pn].ty != pty):
